@@ -18,6 +18,7 @@ RULE = ("case = random family + type AST (depth<=2 quick / <=4 thorough) x confo
         "to_toml obtained with an identity encoder= argument) are compared with REF_ENCODE(S, v): exact classes, "
         "order of fields/keys/elements, only basic types, json.dumps succeeds. distinct_nontrivial = distinct "
         "(type shape, value repr) pairs with a non-empty value.")
+RULE += " Additions: codec objects of several formats for one class in random creation order (identity post_encoder_func exposes the tree); parse-only registrations above the format dialect."
 ASSUMPTIONS = [
     "REF_ENCODE is my independent reading of the README representation tables (vfw/ref.py)",
     "TypedDict key order and set element order are not pinned (compared unordered)",
